@@ -265,7 +265,7 @@ int main(int argc, char **argv) {
         if (!rc) { int budget = 1000; hxj_dump(stdout, res, &budget); }
         struct jbl *jbl = 0, *r2 = 0;
         if (!jbl_from_json(&jbl, doc)) {
-          iwrc rc2 = l2 ? jbl_at(jbl, pt, &r2) : 0;   // the root pointer aliases the source holder (finding F30, C14)
+          iwrc rc2 = pt[0] ? jbl_at(jbl, pt, &r2) : 0;   // the root pointer aliases the source holder (finding F30, C14)
           printf(" | bin=%s", rcname(rc2));
           if (!rc2 && r2) jbl_destroy(&r2);
           jbl_destroy(&jbl);
